@@ -654,7 +654,8 @@ fn main() {
             let shape = HeaderShape::quick();
             ctx.harness(Config::new("sam_header_k2", 2), |ch| header_body(ch, &shape));
         } else {
-            let light = mk(true, false, false);
+            // k=3 over the base alphabets; the widened alphabets and the long-CIGAR entries take part at k=2 below
+            let light = mk(false, false, false);
             ctx.harness(Config::new("sam_record_k3", 3), |ch| record_body(ch, &light));
             let heavy = mk(true, true, true);
             ctx.harness(Config::new("sam_record_k2_wide", 2), |ch| record_body(ch, &heavy));
